@@ -56,6 +56,11 @@ def _cfg(rng, i):
         c.p_noeff = 0.3
     if i % 7 == 0:
         c.max_items = 6
+    if i % 4 == 3:
+        c.p_prethreaded = 0.6     # hand-threaded loops followed by un-threaded code
+    if i % 3 == 0:
+        c.p_repeat = 0.5
+        c.n_vals = 2
     return c
 
 
